@@ -41,6 +41,7 @@ type CSym struct {
 	WrongType bool      `json:"wrongType,omitempty"`
 	From      *NodeSpec `json:"from,omitempty"`
 	DoTLS     bool      `json:"doTls,omitempty"` // perform the TLS handshake if the server confirms tls
+	Glued     bool      `json:"glued,omitempty"` // written in the same write as the previous symbol (a peer that pipelines cleartext behind its choice)
 }
 
 type SrvCase struct {
@@ -519,10 +520,21 @@ func RunServerScript(c *SrvCase) *SrvObs {
 			}
 			continue
 		}
+		if sym.Glued && i > 0 {
+			continue // went out together with the previous symbol
+		}
 		peer.Step = i + 1
 		if sym.Kind == "garbage" {
 			obs.Sent = append(obs.Sent, M{"garbage": true})
 			_ = peer.SendBytes([]byte("{\"state\": nope}]\n"))
+		} else if i+1 < len(c.Script) && c.Script[i+1].Glued {
+			// one write: this envelope and, right behind it, the next one
+			env, next := symToEnv(sym, obs.Sid), symToEnv(&c.Script[i+1], obs.Sid)
+			obs.Sent = append(obs.Sent, env, next)
+			b1, _ := json.Marshal(env)
+			b2, _ := json.Marshal(next)
+			peer.Step = i + 2
+			_ = peer.SendBytes(append(append(append(b1, '\n'), b2...), '\n'))
 		} else {
 			env := symToEnv(sym, obs.Sid)
 			obs.Sent = append(obs.Sent, env)
@@ -647,12 +659,13 @@ type ExpEnv struct {
 }
 
 type ModelResult struct {
-	Exp         []ExpEnv
-	Status      string // established | failed | aborted | pending
-	Violation   string // which clause the client violated, if Status == failed because of a client violation
-	ReachedAuth bool
-	Negotiated  bool
-	TLSOn       bool
+	Exp          []ExpEnv
+	Status       string // established | failed | aborted | pending
+	Violation    string // which clause the client violated, if Status == failed because of a client violation
+	ReachedAuth  bool
+	Negotiated   bool
+	TLSOn        bool
+	GluedDropped []int // script indexes of cleartext envelopes that arrived glued to the choice that switched to TLS
 }
 
 func capEnc(transport string) []string {
@@ -713,10 +726,17 @@ func RunServerModel(c *SrvCase, negotiates bool) *ModelResult {
 	}
 	state := "new"
 	round := 0
+	switchedAt := -1 // index of the symbol that made the server switch to TLS
 	for i := range c.Script {
 		s := &c.Script[i]
 		if r.Status != "pending" {
 			break
+		}
+		if s.Glued && i > 0 && switchedAt == i-1 {
+			// cleartext that arrived glued to the choice that switched the connection to TLS: it must not be acted upon (the
+			// implementation discards what it had read ahead)
+			r.GluedDropped = append(r.GluedDropped, i)
+			continue
 		}
 		if s.Kind != "session" || !decodableSym(s) {
 			r.Status = "aborted"
@@ -761,6 +781,7 @@ func RunServerModel(c *SrvCase, negotiates bool) *ModelResult {
 					continue
 				}
 				r.TLSOn = true
+				switchedAt = i
 			}
 			r.Exp = append(r.Exp, ExpEnv{State: "authenticating", Schemes: cfg.Schemes})
 			state = "auth"
